@@ -36,6 +36,12 @@ CLAIMED = {
  "C11": ("model_checking", "trace validation of multi-buffer histories (create/scan_*/switch/push/pop/flush/delete/restart from actions, yywrap and between calls) against FlexScanner's per-buffer records",
          "Every buffer owns its pending text, at-bol flag, source and (reentrant) line number in the specification; recorded executions mixing yy_create_buffer, yy_scan_string/bytes/buffer (incl. the NULL result for a buffer lacking its two NULs), yy_switch_to_buffer, yypush/yypop_buffer_state, yy_flush_buffer, yy_delete_buffer and yyrestart, from inside actions, from yywrap and between yylex calls, must be behaviours of it (nothing lost, duplicated or reordered; resume exactly where stopped).",
          "scenarios sampled (seeded); deleting the current buffer only through yypop_buffer_state", "5 C11"),
+ "C13": ("model_checking", "IndexSafe of MC_Product over every table representation + trace validation of API histories and of the allocation ledger (FlexHeap) under ASan/UBSan",
+         "TLC proves, per rule set and table representation, that every index the matching loop forms for every (state, byte) stays inside the dumped arrays; recorded API histories (edits, stack growth, buffers, yywrap, destroy-and-reuse in one process, %array capacity) must be behaviours of FlexScanner, and the ledger recorded by the harness's yyalloc/yyrealloc/yyfree must be a behaviour of FlexHeap: only live blocks freed or reallocated, nothing live after the user's buffers are deleted and yylex_destroy returns.",
+         "general absence of undefined behaviour outside the modelled indices and the ledger is observed by the sanitizer monitor (DESIGN.md section 9), not decided by TLC", "5 C13"),
+ "C14": ("fault_enumeration", "single-fault enumeration (k-th allocation refused; EINTR / EIO at each read index) with trace validation against FlexScanner and FlexHeap",
+         "For each scenario a clean run counts allocation requests and read attempts; then one run per allocation index with that request refused and per read index with EINTR or a hard error (through the scanner's own stdio YY_INPUT on cookie streams).  FlexHeap allows nothing after a refusal but the fatal-error hook or the documented error return of yylex_init (ENOMEM/EINVAL, nothing kept); an EINTR run must equal the clean run; a hard error must reach the fatal-error hook.",
+         "one fault per run; fault points capped per scenario in the quick tier; read(2) path (%option read) not exercised", "5 C14"),
  "C17": ("model_checking", "exact reachability of 'rule r is selected' in the TLA+ reference automaton (TLC) compared with flex's warnings",
          "TLC enumerates every reachable item state of the reference automaton from every start state; the set of selectable rules is compared with flex's 'rule cannot be matched' and -s default-rule warnings (iff for plain rule sets, no-false-warning for REJECT/variable trailing context).",
          "rule sets sampled", "5 C17"),
